@@ -25,20 +25,20 @@ CFG = dict(
                  "a peer re-establishing with a family it already resolved or is not configured for; outstanding EOR for a family that is not deferred",
                  "in session mode End-of-RIB is only signalled for sessions that negotiated graceful restart (as rx_msg does)",
                  "thorough depth 5: coupled system over 3 peers x 2 families (22 events), bare machine over the full 3 x 3 alphabet (37 events)"],
-    floor=dict(evaluations=2000000, nontrivial=20000,
+    floor=dict(evaluations=4000000, nontrivial=20000,
                counters={"exhaustive:full:d4:p3f3:Glue:complete-shards": 10,
                          "machine:full:d4:complete-shards": 4, "machine:full:d4:sequences": 1874161,
-                         "step:family-held": 400000, "insert:held-back": 400000,
-                         "insert:announced-after-release": 100000, "insert:announced-non-deferred": 400000,
-                         "release-by:eor": 5000, "release-by:withdrawn": 5000, "release-by:timer": 5000,
-                         "release-by:est-nogr": 5000, "release-by:est-without-family": 10000,
-                         "release:prefix-dumped": 50000, "release:multipath-prefix-dumped": 2000,
-                         "terminates:judged": 20000, "flag-held:judged": 400000,
-                         "random:session-mode": 200, "random:2-shards": 200}),
+                         "step:family-held": 800000, "insert:held-back": 900000,
+                         "insert:announced-after-release": 70000, "insert:announced-non-deferred": 400000,
+                         "release-by:eor": 2500, "release-by:withdrawn": 4000, "release-by:timer": 13000,
+                         "release-by:est-nogr": 4000, "release-by:est-without-family": 12000,
+                         "release:prefix-dumped": 60000, "release:multipath-prefix-dumped": 9000,
+                         "terminates:judged": 11000, "flag-held:judged": 300000,
+                         "random:session-mode": 400, "random:2-shards": 400, "initial-dump-probe:runs": 1}),
     # quick: coupled depth 4 over the full alphabet up to peer renaming (all peers configured alike),
     # bare machine depth 4 over every sequence, coupled depth 3 for asymmetric configurations, random
     quick=[e2("exh4", _T, 10, 120, part="exh", depth=4, cfg="full", nshards=10, sym=1),
-           e2("mach4", _T, 4, 120, part="machine", depth=4, cfg="full+chain", nshards=4),
+           e2("mach4", _T, 4, 120, part="machine", depth=4, cfg="full", nshards=4),
            e2("exh3", _T, 2, 120, part="exh", depth=3, cfg="asym+chain", nshards=2),
            e2("sess3", _T, 2, 120, part="exh", depth=3, cfg="asym", mode="session", nshards=2),
            e2("rnd", _T, 2, 30, part="rnd", count=2500)],
